@@ -223,17 +223,45 @@ func registerOverrides(e *Engine) {
 		return in.ctx.F
 	})
 	e.reg(zz+"WaitIdle", func(in *interp, fr *frame, a []value) value { in.sch.waitIdle(); return nil })
-	e.reg(zz+"Yield", func(in *interp, fr *frame, a []value) value { in.sch.yield("Yield"); return nil })
+	e.reg(zz+"Yield", func(in *interp, fr *frame, a []value) value {
+		in.sch.yield("Yield")
+		if t := in.sch.cur; t.label != "" {
+			in.sch.schedLog = append(in.sch.schedLog, t.label)
+		}
+		return nil
+	})
+	e.reg(zz+"Go", func(in *interp, fr *frame, a []value) value {
+		in.spawnNamed(in.str(a[0]), "zzverif.Go", a[1], nil)
+		return nil
+	})
 	e.reg(zz+"ExploreSchedules", func(in *interp, fr *frame, a []value) value {
 		in.sch.explore = true
 		in.sch.bound = int(asInt(a[0]))
 		in.sch.preemptions = 0
+		for _, t := range in.sch.threads {
+			if t != in.sch.cur {
+				t.background = true
+			}
+		}
 		return nil
 	})
-	e.reg(zz+"StopExploring", func(in *interp, fr *frame, a []value) value { in.sch.explore = false; return nil })
+	e.reg(zz+"StopExploring", func(in *interp, fr *frame, a []value) value {
+		in.sch.explore = false
+		for _, t := range in.sch.threads {
+			t.background = false
+		}
+		return nil
+	})
 	e.reg(zz+"Hold", func(in *interp, fr *frame, a []value) value { in.sch.held = true; return nil })
 	e.reg(zz+"Release", func(in *interp, fr *frame, a []value) value { in.sch.held = false; return nil })
-	e.reg(zz+"Stamp", func(in *interp, fr *frame, a []value) value { in.stamp++; return in.mkInt(in.stamp) })
+	e.reg(zz+"Stamp", func(in *interp, fr *frame, a []value) value {
+		in.sch.yield("Stamp")
+		if t := in.sch.cur; t.label != "" {
+			in.sch.schedLog = append(in.sch.schedLog, t.label)
+		}
+		in.stamp++
+		return in.mkInt(in.stamp)
+	})
 	e.reg(zz+"ChanCap", func(in *interp, fr *frame, a []value) value {
 		in.chanCaps[in.str(a[0])] = int(asInt(a[1]))
 		return nil
@@ -268,6 +296,12 @@ func registerOverrides(e *Engine) {
 	})
 	e.reg("strings.Index", func(in *interp, fr *frame, a []value) value {
 		return in.indexOf(in.strBytes(a[0]), in.strBytes(a[1]))
+	})
+	e.reg("internal/stringslite.Index", func(in *interp, fr *frame, a []value) value {
+		return in.indexOf(in.strBytes(a[0]), in.strBytes(a[1]))
+	})
+	e.reg("internal/stringslite.IndexByte", func(in *interp, fr *frame, a []value) value {
+		return in.indexOf(in.strBytes(a[0]), []*sym.Term{term(a[1])})
 	})
 	e.reg("strings.IndexByte", func(in *interp, fr *frame, a []value) value {
 		return in.indexOf(in.strBytes(a[0]), []*sym.Term{term(a[1])})
